@@ -89,7 +89,7 @@ func genFmtCase(t *rapid.T, disagree bool) FmtCase {
 			for j := 0; j < m; j++ {
 				sb.WriteString(rapid.SampledFrom(rawTokens).Draw(t, "tok"))
 			}
-			sb.WriteString(rapid.SampledFrom([]string{"\n", "\n", "\n", "\r\n", "\n\n"}).Draw(t, "raweol"))
+			sb.WriteString(rapid.SampledFrom([]string{"\n", "\n", "\n", "\n", "\n", "\r\n", "\n\n", "\r\r\n", "\r\r\r\n"}).Draw(t, "raweol"))
 		}
 		c.Raw = sb.String()
 		if rapid.IntRange(0, 3).Draw(t, "rawnofinal") == 0 {
@@ -149,6 +149,9 @@ func genFmtCase(t *rapid.T, disagree bool) FmtCase {
 			"##!> define  n   v  ",
 			"##!> include-except  f0   f1    --  a   b ",
 			"##!> include f0 --  a    b",
+			"##!> include f0 --",
+			"##!> include-except f0 f0 --  ",
+			"##!> include f0  -- ",
 			"##!^",
 			"##!$ ",
 			"##!=>   s0",
